@@ -102,9 +102,9 @@ std::unique_ptr<Session> native_session(uint32_t pv, length_t n, length_t m) {
 #define NATIVE_LIST2(X)
 #endif
 
-std::unique_ptr<Session> new_native(int idx, uint32_t pv, length_t n, length_t m) {
+std::unique_ptr<Session> new_native(int idx, uint32_t has, uint32_t prov, uint32_t pv, length_t n, length_t m) {
     switch (idx) {
-#define X(i, H, P) case i: return native_session<(H), (P)>(pv, n, m);
+#define X(i, H, P) case i: return ((H) == has && (P) == prov) ? native_session<(H), (P)>(pv, n, m) : nullptr;
         NATIVE_LIST(X)
         NATIVE_LIST2(X)
 #undef X
@@ -242,12 +242,13 @@ std::unique_ptr<Session> ocp_session(uint32_t pv, length_t nh, length_t nc, std:
     X(4, (1u << O_ADD_Q_N) | (1u << O_R_PROD) | (1u << O_R_WORK) | (1u << O_CONSTR_N) | (1u << O_GET_D_N), (1u << O_R_PROD)) \
     X(5, ALLO & ~((1u << O_S_PROD) | (1u << O_GN_N) | (1u << O_GET_D_N)), ALLO & ~((1u << O_S_PROD) | (1u << O_CONSTR)))
 
-std::unique_ptr<Session> new_ocp(int idx, uint32_t pv, length_t nh, length_t nc, std::string &status) {
+std::unique_ptr<Session> new_ocp(int idx, uint32_t has, uint32_t prov, uint32_t pv, length_t nh, length_t nc, std::string &status) {
+    status = "bad-index";
     switch (idx) {
-#define X(i, H, P) case i: return ocp_session<(H), (P)>(pv, nh, nc, status);
+#define X(i, H, P) case i: return ((H) == has && (P) == prov) ? ocp_session<(H), (P)>(pv, nh, nc, status) : nullptr;
         OCP_LIST(X)
 #undef X
-        default: status = "bad-index"; return nullptr;
+        default: return nullptr;
     }
 }
 
@@ -336,13 +337,23 @@ int main(int argc, char **argv) {
         vp::Toks t(line);
         std::string op = t.tok();
         try {
-            if (op == "new") {
+            if (op == "list") {
+                std::ostringstream o;
+                o << "native";
+#define X(i, H, P) o << ' ' << i << ':' << uint32_t(H) << ':' << uint32_t(P);
+                NATIVE_LIST(X)
+                NATIVE_LIST2(X)
+                o << " ocp";
+                OCP_LIST(X)
+#undef X
+                std::cout << o.str() << '\n';
+            } else if (op == "new") {
                 S.reset();
                 g_log.clear();
                 std::string kind = t.tok(), status = "ok";
                 if (kind == "native") {
-                    int idx = (int)t.nat(); uint32_t pv = (uint32_t)t.nat(); long n = t.nat(), m = t.nat();
-                    S = new_native(idx, pv, n, m);
+                    int idx = (int)t.nat(); uint32_t has = (uint32_t)t.nat(), prov = (uint32_t)t.nat(), pv = (uint32_t)t.nat(); long n = t.nat(), m = t.nat();
+                    S = new_native(idx, has, prov, pv, n, m);
                     if (!S) status = "bad-index";
                 } else if (kind == "functional") {
                     uint32_t fm = (uint32_t)t.nat(); long n = t.nat(), m = t.nat();
@@ -353,8 +364,8 @@ int main(int argc, char **argv) {
                     P.mask = (unsigned long)t.nat(); P.n = t.nat(); P.m = t.nat(); P.flags = (int)t.nat();
                     S = kind == "dl" ? new_dl(file, regfn, P, status) : new_dlocp(file, regfn, P, status);
                 } else if (kind == "ocp") {
-                    int idx = (int)t.nat(); uint32_t pv = (uint32_t)t.nat(); long nh = t.nat(), nc = t.nat();
-                    S = new_ocp(idx, pv, nh, nc, status);
+                    int idx = (int)t.nat(); uint32_t has = (uint32_t)t.nat(), prov = (uint32_t)t.nat(), pv = (uint32_t)t.nat(); long nh = t.nat(), nc = t.nat();
+                    S = new_ocp(idx, has, prov, pv, nh, nc, status);
                 } else {
                     status = "bad-kind";
                 }
